@@ -53,17 +53,26 @@ def _bfs(pool, expand, init_key, max_depth, max_states, deadline, init_hist) -> 
         if (max_states and len(seen) >= max_states) or (deadline and time.time() > deadline):
             capped = True
             break
-        nchunks = min(256, max(1, len(frontier) // 4))
-        chunks = [frontier[i::nchunks] for i in range(nchunks) if frontier[i::nchunks]]
-        if pool is None or len(frontier) < 4:
-            raw = [_expand_chunk(ch) for ch in chunks]
-        else:
-            raw = pool.map(_expand_chunk, chunks, chunksize=1)
-        res = []
-        for tag, val in raw:
-            if tag != "ok":
-                raise common.HarnessError(val)
-            res.append(val)
+        # a level is expanded in slices so that the deadline is honoured inside a large level too; a level cut short
+        # counts as not completed (capped), what it found is still reported
+        chunks, res = [], []
+        SLICE = 8192
+        for lo in range(0, len(frontier), SLICE):
+            part = frontier[lo:lo + SLICE]
+            nchunks = min(256, max(1, len(part) // 4))
+            pchunks = [part[i::nchunks] for i in range(nchunks) if part[i::nchunks]]
+            if pool is None or len(part) < 4:
+                raw = [_expand_chunk(ch) for ch in pchunks]
+            else:
+                raw = pool.map(_expand_chunk, pchunks, chunksize=1)
+            for tag, val in raw:
+                if tag != "ok":
+                    raise common.HarnessError(val)
+                res.append(val)
+            chunks += pchunks
+            if deadline and time.time() > deadline and lo + SLICE < len(frontier):
+                capped = True
+                break
         nxt = []
         for ch, rs in zip(chunks, res):
             for hist, succ in zip(ch, rs):
@@ -83,6 +92,8 @@ def _bfs(pool, expand, init_key, max_depth, max_states, deadline, init_hist) -> 
                         if len(samples) < 3 and len(nh) in (4, 6, 8) and all(len(s) != len(nh) for s in samples):
                             samples.append(nh)
         frontier = nxt
+        if capped:
+            break
         depth += 1
     return {"states": len(seen), "transitions": transitions, "depth": depth, "closed": (not frontier) and not capped,
             "capped": capped, "violations": viols, "samples": samples, "frontier_left": len(frontier),
